@@ -631,7 +631,9 @@ def eval_series(ctx, c, outs):
     vals = {1 + i: cell_value(dt, i, 0) for i in range(n) if not pat[i]}
     col = [missing_value(dt, i, 0) if pat[i] else vals[1 + i] for i in range(n)]
     arr = make_array(dt, col)
-    s = sf.Series(arr, index=labels('r', n), name='nm', own_index=True)
+    # the labels of the target are not in sorted order (every alignment below is by label, never by rank)
+    tperm = c.get('tperm') or list(range(n))
+    s = sf.Series(arr, index=sf.Index([f'r{p}' for p in tperm]), name='nm', own_index=True)
     fill = FILLS[c.get('fill', 'float')]
     model = [parse_answer(o) for o in outs] if outs else None
     pos = 0
@@ -712,8 +714,8 @@ def eval_series(ctx, c, outs):
     order = c['other_order']
     other = sf.Series([grid_value(okind, i) for i in order], index=[f'r{i}' for i in order]) if order else sf.Series((), index=())
     cov = set(c['other'])
-    exp = [GRID_ID + i if (ids[i] == 0 and i in cov) else ids[i] for i in range(n)]
-    check('fillna(Series)', run(lambda: s.fillna(other)), exp, nxt(), ['fillseries'])
+    exp = [GRID_ID + tperm[i] if (ids[i] == 0 and tperm[i] in cov) else ids[i] for i in range(n)]
+    check('fillna(Series)', run(lambda: s.fillna(other)), exp, nxt() if tperm == list(range(n)) else (nxt(), None)[1], ['fillseries'])
     for lead in (1, 0):
         meth = s.fillna_leading if lead else s.fillna_trailing
         exp = (o_leading if lead else o_trailing)(ids, FILL_ID)
@@ -769,7 +771,10 @@ def series_case(rng, dt, pat):
     cov = [i for i in range(n) if rng.random() < 0.6]
     order = cov + [n + k for k in range(rng.randint(0, 2))]
     rng.shuffle(order)
-    return {'k': 'series', 'dt': dt, 'pat': list(pat), 'other': cov, 'other_order': order,
+    tperm = list(range(n))
+    if rng.random() < 0.6:
+        rng.shuffle(tperm)
+    return {'k': 'series', 'dt': dt, 'pat': list(pat), 'tperm': tperm, 'other': cov, 'other_order': order,
             'other_kind': rng.choice(['float', 'int', 'str']), 'fill': rng.choice(fills_for([dt]))}
 
 
